@@ -72,6 +72,13 @@ Proof.
   destruct (f_cmp f), (f_eq f), (f_order f), (f_hash f), (f_factory f), (f_default f); reflexivity.
 Qed.
 
+(** [attrib(<default>)] with every other argument at its signature default never raises
+    (the translator relies on this when it skips the annotation loop of [_transform_attrs],
+    which calls [attrib(a)] for plain annotated attributes) *)
+Lemma tie_attrib_default_only : forall d,
+  raised (attrib_checks is_callable_std d PVNone PVNone PVNone PVNone PVNone) = None.
+Proof. intros d. reflexivity. Qed.
+
 (** [_CountingAttr.default] = [second_default_check] *)
 Lemma tie_second_default : forall f, f_second f = true ->
   raised (counting_attr_default (inj_dk (default_after_attrib f))) =
@@ -93,31 +100,38 @@ Proof. intros f. destruct (f_annot f), (f_type f); reflexivity. Qed.
 Lemma tie_annotations_source : forall c these auto kw, annotations_source c these auto kw = c.
 Proof. reflexivity. Qed.
 
-(** the mandatory-after-default loop = [C07.Model.order_ok_from], lists of any length *)
+(** Proof scripts in this file do not rely on the syntactic shape the translator happened
+    to emit: they enumerate the (finite) inputs, let the generated term compute, and meet
+    the hoisted loops only through the two loop lemmas below, which are themselves proved
+    by induction + enumeration whatever the loop body looks like. *)
+
+Lemma raised_bind_noraise r k : (forall vs, raised (k vs) = None) -> raised (bind_ret r k) = raised r.
+Proof. intros H. destruct r; cbn; auto. Qed.
+
+Ltac split_ifs :=
+  repeat first [ progress cbn | match goal with |- context [if ?c then _ else _] => destruct c end ].
+
+(** the mandatory-after-default loop = [C07.Model.order_ok_from], lists of any length:
+    it raises [ValueError] exactly when [order_ok_from] fails and otherwise ends normally *)
+Lemma order_loop_spec : forall l h,
+  exists h', transform_attrs_loop1 is_callable_std (map inj_attr l) (injb h) =
+             if order_ok_from h l then PRet [injb h'] else PRaise (exc_name XValue).
+Proof.
+  induction l as [|a r IH]; intros h; [exists h; reflexivity|].
+  cbn [map transform_attrs_loop1 order_ok_from]. unfold positional, has_default.
+  remember (map inj_attr r) as R eqn:HR. unfold inj_attr.
+  cbn [t_init t_kw_only t_default t_on_setattr]. subst R.
+  destruct (a_init a), (a_kw_only a), h, (a_default a); cbn;
+    first [ exact (IH true) | exact (IH false) | exists true; reflexivity ].
+Qed.
+
 Lemma tie_order_loop : forall l h,
   raised (transform_attrs_loop1 is_callable_std (map inj_attr l) (injb h)) =
   if order_ok_from h l then None else Some (exc_name XValue).
 Proof.
-  induction l as [|a r IH]; intros h; [reflexivity|].
-  cbn [map transform_attrs_loop1 order_ok_from]. unfold positional, has_default.
-  unfold inj_attr at 1 2 3 4. cbn [t_init t_kw_only t_default t_on_setattr].
-  destruct (a_init a), (a_kw_only a), h, (a_default a); cbn;
-    try apply (IH true); try apply (IH false); reflexivity.
+  intros l h. destruct (order_loop_spec l h) as [h' R]. rewrite R.
+  destruct (order_ok_from h l); reflexivity.
 Qed.
-
-Lemma order_loop_no_raise_ret : forall l h,
-  order_ok_from h l = true ->
-  exists h', transform_attrs_loop1 is_callable_std (map inj_attr l) (injb h) = PRet [injb h'].
-Proof.
-  induction l as [|a r IH]; intros h H; [exists h; reflexivity|].
-  cbn [map transform_attrs_loop1]. cbn [order_ok_from] in H. unfold positional, has_default in H.
-  unfold inj_attr at 1 2 3 4. cbn [t_init t_kw_only t_default t_on_setattr].
-  destruct (a_init a), (a_kw_only a), h, (a_default a); cbn in H |- *;
-    try discriminate H; try apply (IH true H); try apply (IH false H).
-Qed.
-
-Lemma loop2_ret : forall l, transform_attrs_loop2 is_callable_std l = PRet [].
-Proof. induction l as [|a r IH]; [reflexivity | exact IH]. Qed.
 
 (** the function as a whole: [these] skips the annotation test, [auto_attribs is True]
     raises for unannotated [attr.ib]s, then the order loop — [chk_unannotated] followed by
@@ -129,40 +143,34 @@ Lemma tie_transform_attrs : forall (un th : bool) (auto : tri) (kw : bool) l,
                if order_ok l then None else Some (exc_name XValue) ].
 Proof.
   intros un th auto kw l. unfold transform_attrs_checks, order_ok.
-  pose proof (tie_order_loop l false) as T.
-  destruct (order_ok_from false l) eqn:E.
-  - destruct (order_loop_no_raise_ret l false E) as [h' R]. cbn [injb] in R.
-    destruct un, th, auto, kw; cbn; rewrite ?R; cbn; rewrite ?loop2_ret; reflexivity.
-  - cbn [injb] in T. destruct (transform_attrs_loop1 is_callable_std (map inj_attr l) PVFalse) eqn:R;
-      try discriminate T. cbn in T. inversion T; subst.
-    destruct un, th, auto, kw; cbn; rewrite ?R; reflexivity.
+  destruct (order_loop_spec l false) as [h' R]. cbn [injb] in R.
+  destruct un, th, auto, kw; cbn; rewrite ?R;
+    destruct (order_ok_from false l); cbn; split_ifs; reflexivity.
 Qed.
 
 (** ** [_make_init_script] = [Core.Init.make_init_script]'s [GenValueError] *)
+
+(** the per-field loop, for ANY values of the outer names it reads: it raises exactly
+    when the class is frozen ([frozen is True]) and some field has an [on_setattr] *)
+Lemma init_loop_spec : forall l (fz hc n : pyv),
+  exists n', make_init_script_loop1 is_callable_std fz hc (map inj_attr l) n =
+             if pyv_is fz PVTrue && existsb (fun a => negb (os_is_none (a_on_setattr a))) l
+             then PRaise (exc_name XValue) else PRet [n'].
+Proof.
+  induction l as [|a r IH]; intros fz hc n.
+  - exists n. cbn. rewrite andb_false_r. reflexivity.
+  - cbn [map make_init_script_loop1 existsb]. remember (map inj_attr r) as R eqn:HR.
+    unfold inj_attr. cbn [t_init t_kw_only t_default t_on_setattr]. subst R.
+    destruct (a_on_setattr a), fz, (a_init a), (a_default a), hc; cbn;
+      first [ exact (IH _ _ _) | exists n; reflexivity ].
+Qed.
 
 Lemma tie_init_loop : forall l (frozen hc : bool) n,
   raised (make_init_script_loop1 is_callable_std (injb frozen) (injb hc) (map inj_attr l) n) =
   if frozen && existsb (fun a => negb (os_is_none (a_on_setattr a))) l then Some (exc_name XValue) else None.
 Proof.
-  induction l as [|a r IH]; intros frozen hc n; [now rewrite andb_false_r|].
-  cbn [map make_init_script_loop1 existsb]. remember (map inj_attr r) as R eqn:HR.
-  unfold inj_attr. cbn [t_init t_kw_only t_default t_on_setattr]. subst R.
-  destruct (a_on_setattr a), frozen, (a_init a), (a_default a), hc; cbn;
-    first [ reflexivity | exact (IH true true _) | exact (IH true false _)
-          | exact (IH false true _) | exact (IH false false _) ].
-Qed.
-
-Lemma init_loop_ret : forall l (frozen hc : bool) n,
-  raised (make_init_script_loop1 is_callable_std (injb frozen) (injb hc) (map inj_attr l) n) = None ->
-  exists n', make_init_script_loop1 is_callable_std (injb frozen) (injb hc) (map inj_attr l) n = PRet [n'].
-Proof.
-  induction l as [|a r IH]; intros frozen hc n H; [eexists; reflexivity|].
-  revert H. cbn [map make_init_script_loop1]. remember (map inj_attr r) as R eqn:HR.
-  unfold inj_attr. cbn [t_init t_kw_only t_default t_on_setattr]. subst R.
-  destruct (a_on_setattr a), frozen, (a_init a), (a_default a), hc; cbn; intros H;
-    try discriminate H;
-    first [ exact (IH true true _ H) | exact (IH true false _ H)
-          | exact (IH false true _ H) | exact (IH false false _ H) ].
+  intros l frozen hc n. destruct (init_loop_spec l (injb frozen) (injb hc) n) as [n' R]. rewrite R.
+  destruct frozen; cbn; split_ifs; reflexivity.
 Qed.
 
 Lemma tie_make_init_script_checks : forall (frozen cache : bool) cos l,
@@ -172,22 +180,13 @@ Lemma tie_make_init_script_checks : forall (frozen cache : bool) cos l,
   then Some (exc_name XValue) else None.
 Proof.
   intros frozen cache cos l. unfold make_init_script_checks.
-  assert (HC : pyv_and (pyv_of_bool (negb (pyv_is (inj_cos cos) PVNone)))
-                       (pyv_of_bool (negb (pyv_is (inj_cos cos) PV_NO_OP))) = injb (has_cls_on_setattr cos))
-    by (destruct cos; reflexivity).
-  cbv zeta. rewrite HC.
-  destruct (frozen && has_cls_on_setattr cos) eqn:F.
-  - apply andb_true_iff in F as [-> F]. rewrite F. reflexivity.
-  - assert (G : andb (pyv_truthy (injb frozen)) (pyv_truthy (injb (has_cls_on_setattr cos))) = false)
-      by (destruct frozen, (has_cls_on_setattr cos); try discriminate F; reflexivity).
-    rewrite G. cbn [orb].
-    pose proof (tie_init_loop l frozen (has_cls_on_setattr cos) (pyv_or (injb cache) (injb frozen))) as T.
-    destruct (frozen && existsb (fun a => negb (os_is_none (a_on_setattr a))) l) eqn:E.
-    + destruct (make_init_script_loop1 is_callable_std (injb frozen) (injb (has_cls_on_setattr cos))
-                  (map inj_attr l) (pyv_or (injb cache) (injb frozen))) eqn:R; try discriminate T.
-      cbn in T |- *. exact T.
-    + destruct (init_loop_ret l frozen (has_cls_on_setattr cos) _ T) as [n' R]. rewrite R. cbn.
-      repeat match goal with |- context [if ?c then _ else _] => destruct c end; reflexivity.
+  destruct cos, frozen, cache; cbn;
+    repeat match goal with
+    | |- context [make_init_script_loop1 ?c ?fz ?hc (map inj_attr l) ?n] =>
+        let n' := fresh "n'" in let R := fresh "R" in
+        destruct (init_loop_spec l fz hc n) as [n' R]; rewrite R; clear R; cbn
+    end;
+    split_ifs; reflexivity.
 Qed.
 
 (** ... which is the model's [chk_init_script] (through [Core.Init.make_init_script]) *)
